@@ -226,6 +226,7 @@ type ConnTap struct {
 	Datagrams         []*DatagramInfo
 	HandshakeDoneSeen bool
 	Unopened          int
+	pktBytes          map[string][]byte
 }
 
 // Wire demultiplexes datagrams to connection taps.
@@ -390,6 +391,7 @@ func (c *ConnTap) observe(d *DatagramInfo) {
 		d.SplitErr = err.Error()
 	}
 	d.Trailing = len(rest)
+	ghost := false // coalesced packets all belong to the same connection instance
 	for _, rp := range pk {
 		pi := PacketInfo{Kind: rp.Kind, Version: rp.Version, DCID: rp.DCID, SCID: rp.SCID, Token: rp.Token, Start: rp.Offset, End: rp.Offset + len(rp.Data), Versions: rp.Versions, Tag: rp.Tag}
 		c.Counts["pkt_"+dir.String()+"_"+rp.Kind.String()]++
@@ -401,7 +403,13 @@ func (c *ConnTap) observe(d *DatagramInfo) {
 			// a Retry changes the DCID the client uses, and thereby the Initial keys
 			c.cids[C2S][string(rp.SCID)] = true
 		default:
-			c.open(dir, &rp, &pi)
+			if ghost {
+				pi.Err = "post-close server packet (another connection instance)"
+				c.Counts["post_close_server_long_header_packets"]++
+			} else {
+				c.open(dir, &rp, &pi)
+				ghost = !pi.Opened && strings.HasPrefix(pi.Err, "post-close server packet")
+			}
 		}
 		d.Packets = append(d.Packets, pi)
 	}
@@ -417,6 +425,13 @@ func (c *ConnTap) candidateKeys(dir Dir, rp *RawPacket) []*Keys {
 		out = append(out, c.initialKeys(rp.Version, c.initDCID)[dir])
 		if dir == C2S && !bytes.Equal(rp.DCID, c.initDCID) {
 			out = append(out, c.initialKeys(rp.Version, rp.DCID)[dir])
+		}
+		// Late answers to delayed duplicates of earlier Initials (before a Retry, or with another
+		// version) are protected with the keys of that earlier attempt.
+		for _, ks := range c.initKeys {
+			if ks[dir] != out[0] && (len(out) < 2 || ks[dir] != out[1]) {
+				out = append(out, ks[dir])
+			}
 		}
 		return out
 	case KindHandshake:
@@ -463,6 +478,16 @@ func (c *ConnTap) keysFromSecret(version uint32, sec []byte) *Keys {
 
 func (c *ConnTap) open(dir Dir, rp *RawPacket, pi *PacketInfo) {
 	space := rp.Kind.Space()
+	if dir == S2C && rp.Kind != KindOneRTT && ((len(c.Closes[0]) > 0 || len(c.Closes[1]) > 0) ||
+		(c.SH != nil && !bytes.Equal(rp.SCID, c.ServerSCID))) {
+		// Long-header packets from the server after the connection was closed, or with a source connection
+		// ID other than the one the handshake was made with, belong to another server-side connection
+		// instance, created for a delayed duplicate of the client's Initial once the original destination
+		// connection ID was no longer routed (same DCID, hence same Initial keys, but its own handshake).
+		pi.Err = "post-close server packet (another connection instance)"
+		c.Counts["post_close_server_long_header_packets"]++
+		return
+	}
 	if rp.Kind == KindOneRTT {
 		c.openShort(dir, rp, pi)
 	} else {
@@ -483,7 +508,7 @@ func (c *ConnTap) open(dir Dir, rp *RawPacket, pi *PacketInfo) {
 				continue
 			}
 			pi.Opened, pi.Err, pi.Hdr, pi.PN, pi.PNLen, pi.Payload = true, "", hdr, pn, pnLen, payload
-			if rp.Kind == KindInitial && i == 1 {
+			if rp.Kind == KindInitial && i == 1 && dir == C2S && !bytes.Equal(rp.DCID, c.initDCID) {
 				// Initial keys changed (Retry): the CRYPTO stream restarts
 				c.initDCID = append([]byte(nil), rp.DCID...)
 				c.crypto[C2S][0] = &cryptoReasm{}
@@ -515,13 +540,50 @@ func (c *ConnTap) open(dir Dir, rp *RawPacket, pi *PacketInfo) {
 	if dir == C2S && rp.Kind == KindInitial && rp.Version != c.Version && c.SH == nil {
 		c.Version = rp.Version // after version negotiation
 	}
+	frames, ferr := ParseFrames(pi.Payload)
+	pi.Frames = frames
+	// A server answers an Initial it does not want to serve (listener closed, invalid token) statelessly,
+	// outside of any connection, with an Initial packet that carries only CONNECTION_CLOSE
+	// (CONNECTION_REFUSED / INVALID_TOKEN) and its own packet number: not part of the connection's number space.
+	if dir == S2C && rp.Kind == KindInitial && len(frames) >= 1 && frames[0].Type == FtConnClose && (frames[0].ErrorCode == 0x2 || frames[0].ErrorCode == 0xb) {
+		only := true
+		for _, f := range frames[1:] {
+			if f.Type != FtPadding {
+				only = false
+			}
+		}
+		if only {
+			c.Counts["stateless_reject_packets"]++
+			c.Closes[dir] = append(c.Closes[dir], frames[0])
+			return
+		}
+	}
 	// ---- packet number bookkeeping (C05)
 	if int64(pi.PN) > c.largest[dir][space] {
 		c.largest[dir][space] = int64(pi.PN)
 	}
 	c.EmittedPN[dir][space][pi.PN]++
 	if c.EmittedPN[dir][space][pi.PN] > 1 {
-		c.anomaly("C05", "C05|wire|packet-number-reused", "%s sent packet number %d twice in space %d", dir, pi.PN, space)
+		// Re-sending the identical packet is legal (a closed connection repeats its CONNECTION_CLOSE
+		// packet, RFC 9000 section 10.2.1); a different packet under the same number reuses the nonce.
+		key := fmt.Sprintf("%d/%d/%d", dir, space, pi.PN)
+		if prev, ok := c.pktBytes[key]; ok && bytes.Equal(prev, rp.Data) {
+			c.Counts["identical_packet_resent"]++
+		} else {
+			if dir == S2C && space < 2 && len(c.ServerSCID) == 0 {
+				// zero-length server connection IDs: another server-side instance cannot be told apart
+				c.Counts["pn_reuse_not_judged_zero_length_scid"]++
+			} else {
+				c.anomaly("C05", "C05|wire|packet-number-reused", "%s sent two different packets with packet number %d in space %d", dir, pi.PN, space)
+			}
+		}
+	}
+	if c.pktBytes == nil {
+		c.pktBytes = map[string][]byte{}
+	}
+	if rp.Kind != KindOneRTT || len(rp.Data) < 200 {
+		// keep the bytes of small packets (CONNECTION_CLOSE and other control packets) for the comparison above
+		c.pktBytes[fmt.Sprintf("%d/%d/%d", dir, space, pi.PN)] = append([]byte(nil), rp.Data...)
 	}
 	// PN length must be sufficient given the largest ACK delivered to the sender so far (RFC 9000 A.2)
 	if la := c.AckLargestTo[dir][space]; true {
@@ -539,9 +601,7 @@ func (c *ConnTap) open(dir Dir, rp *RawPacket, pi *PacketInfo) {
 			c.anomaly("C05", "C05|wire|packet-number-encoding-too-short", "%s %s packet %d encoded in %d byte(s), largest ack delivered to sender %d", dir, rp.Kind, pi.PN, pi.PNLen, la)
 		}
 	}
-	frames, err := ParseFrames(pi.Payload)
-	pi.Frames = frames
-	if err != nil {
+	if err := ferr; err != nil {
 		pi.Err = err.Error()
 		c.Counts["frame_parse_errors"]++
 	}
